@@ -29,7 +29,7 @@ ASSUMPTIONS = [
 EXPECTED_PROBES = ["F2", "decoy_analysis_before", "variant_garbage", "variant_ascending", "variant_mask_history", "shared_memory_runs", "identities_checked"]
 
 PLAN = {
-    "quick": {"workloads": 96, "variants": 60, "wall_budget": 200.0, "min_variants": 6, "wall_limit": 2400.0, "per_job_limit": 1200.0},
+    "quick": {"workloads": 80, "variants": 60, "wall_budget": 200.0, "min_variants": 6, "wall_limit": 2400.0, "per_job_limit": 1200.0},
     "thorough": {"workloads": 1600, "variants": 400, "wall_budget": 1500.0, "min_variants": 12, "wall_limit": 10 * 3600.0, "per_job_limit": 3600.0},
 }
 
@@ -74,7 +74,7 @@ def draw_config(rng, wl, tier):
     }
     cfg["in_child"] = rng.random() < 0.12
     # history fault: the same analysis on another data set, with the same worker count, earlier in the process
-    cfg["decoy"] = rng.random() < 0.15
+    cfg["decoy"] = rng.random() < 0.08
     return cfg
 
 
@@ -111,7 +111,7 @@ def _evaluate_after_decoy(args):
 
 
 def evaluate(wl, cfg, dec, ctx):
-    if cfg.get("decoy") and ctx.extra.get("decoys", 0) < 4:
+    if cfg.get("decoy") and ctx.extra.get("decoys", 0) < 1:
         from simkit import batch
 
         ctx.extra["decoys"] = ctx.extra.get("decoys", 0) + 1
